@@ -218,8 +218,12 @@ impl SemanticState {
             if to_resolve.is_empty() {
                 break;
             }
+            #[cfg(pyxis_verif)]
+            crate::verif::emit(|| crate::verif::Event::PassBegin(to_resolve.clone()));
 
             for resolvee_path in &to_resolve {
+                #[cfg(pyxis_verif)]
+                crate::verif::emit(|| crate::verif::Event::AttemptBegin(resolvee_path.clone()));
                 let ItemState::Unresolved(definition) = self
                     .type_registry
                     .get(resolvee_path)
@@ -241,10 +245,16 @@ impl SemanticState {
                     }
                 };
 
+                #[cfg(pyxis_verif)]
+                crate::verif::emit(|| {
+                    crate::verif::Event::AttemptEnd(resolvee_path.clone(), item.is_some())
+                });
                 let Some(item) = item else { continue };
                 self.type_registry.get_mut(resolvee_path).unwrap().state =
                     ItemState::Resolved(item);
             }
+            #[cfg(pyxis_verif)]
+            crate::verif::emit(|| crate::verif::Event::PassEnd);
 
             if to_resolve == self.type_registry.unresolved() {
                 // Oh no! We failed to resolve any new types!
